@@ -211,7 +211,9 @@ def run_config(cfg):
                 msgs.append("published env.X differs from forward-filled / zero-filled / clipped input")
         except Exception as ex:
             msgs.append("re-deriving env.X raised %r" % (ex,))
-    folds = ["training-set"] + (["test-set"] if cfg["folds"] == "two" else [])
+    # with two folds the episodes alternate (train, test, train, test): what one episode leaves behind in the
+    # transmitter must not reach the next one
+    folds = ["training-set", "test-set", "training-set", "test-set"] if cfg["folds"] == "two" else ["training-set"]
     nsteps = 0
     for fold in folds:
         try:
